@@ -32,10 +32,11 @@ Theorem C16_shutdown_step : forall c s s' o, step c s ILoopShutdown = Some (s', 
 Proof. exact shutdown_step_effect. Qed.
 Print Assumptions C16_shutdown_step.
 
-(* once stop is requested on a started Batcher, every settled state has the loop exited or still asleep in a pause (which ends: C13): from any phase, no stuck state *)
+(* once stop is requested on a started Batcher, every settled state has the loop exited, or still asleep in a pause (which ends: C13),
+   or still inside a listener that takes its time (which returns): from any phase, no stuck state *)
 Theorem C16_always_terminates : forall c s, reachable c s -> quiescent c s = true -> stop_req s = true ->
-  loop s = LNotStarted \/ (exists t, loop s = LSleeping t /\ now s <> t) \/ loop s = LExited.
-Proof. intros c s R Q S. destruct (quiescent_loop c s (keys_reachable c s R) Q) as [A|[A|[A|A]]]; try tauto. exfalso. destruct (quiescent_idle_nothing_pending c s Q A) as (_ & _ & _ & _ & _ & X). congruence. Qed.
+  loop s = LNotStarted \/ (exists t, loop s = LSleeping t /\ now s <> t) \/ loop s = LExited \/ (exists t, loop s = LBusy t /\ now s <> t).
+Proof. intros c s R Q S. destruct (quiescent_loop c s (keys_reachable c s R) Q) as [A|[A|[A|[A|A]]]]; try tauto. exfalso. destruct (quiescent_idle_nothing_pending c s Q A) as (_ & _ & _ & _ & _ & X). congruence. Qed.
 Print Assumptions C16_always_terminates.
 
 (* no batch is released after the shutdown event *)
@@ -56,7 +57,7 @@ Proof. exact insert_after_shutdown_v2. Qed.
 Print Assumptions C16_enqueue_after_shutdown_v2.
 
 (* V1: known finding D2 — Enqueue after Stop panics on the closed channel *)
-Definition d2_cfg : cfg := mkCfg V1 4 false false 0 0 0 0 0 0 [mkW 0 0 0].
+Definition d2_cfg : cfg := mkCfg V1 4 false false 0 0 0 0 0 0 [mkW 0 0 0] 0 0.
 Theorem C16_enqueue_after_shutdown_v1_refuted :
   exists s os, run d2_cfg (init d2_cfg)
     [AStart; AStop; ILoopShutdown; IStopRet; AEnqueue (mkE false (Some 0%nat) 1 1 1 true 0 false); IEnqInsert 0] = Some (s, os)
